@@ -118,6 +118,13 @@ def gen_disj(full):
       head = (x, y) if c3[1] != 'A' else (x, z)
       yield Case('DISJ', Program([R('T', *head, body=(('or', (b1, b2)), c3))]), ['T'])
       yield Case('DISJ', Program([R('T', *head, body=(c3, ('or', (b1, b2))))]), ['T'])
+  # rules of one predicate that list the named arguments in different orders (the union must match columns by name)
+  for b1, b2 in itertools.product(bodies[:3], repeat=2):
+    yield Case('DISJ', Program([R('T', named={'a': x, 'b': y}, body=b1), R('T', named={'b': x, 'a': y}, body=b2)]), ['T'])
+    yield Case('DISJ', Program([R('T', x, named={'a': y, 'b': Bin('+', x, y)}, body=b1), R('T', y, named={'b': x, 'a': N(7)}, body=b2)]), ['T'])
+  yield Case('DISJ', Program([R('T', named={'a': x, 'b': y, 'c': N(1)}, body=bodies[0]), R('T', named={'c': x, 'a': y, 'b': N(2)}, body=bodies[1]), R('T', named={'b': x, 'c': y, 'a': N(3)}, body=bodies[0])]), ['T'])
+  yield Case('DISJ', Program([R('T', named={'a': N(1), 'b': N(2)}), R('T', named={'b': N(3), 'a': N(4)}), R('U', x, y, body=(Lit('T', a=x, b=y),))]), ['T', 'U'])
+  yield Case('DISJ', Program([R('P', named={'a': x, 'b': y}, body=bodies[0]), R('P', named={'b': x, 'a': Bin('*', y, N(10))}, body=bodies[0]), R('T', x, y, body=(Lit('P', b=y, a=x), Lit('B', x)))]), ['T', 'P'])
   # three alternatives, three rules
   for b1, b2, b3 in itertools.product(bodies[:4], repeat=3):
     yield Case('DISJ', Program([R('T', x, y, body=(('or', (b1, b2, b3)),))]), ['T'])
